@@ -27,7 +27,7 @@ CHECKS = {
    "At most 29 datagrams per fresh server; volume-based exhaustion not explored.",
    "proptest sequence generation + mutation against the real binary, liveness-probe oracle", "4/C05"),
  "C06": ("wire", "exploration",
-   "Exhaustive decision table (32 configurations x RRQ/WRQ x 11 targets x {plain, with an unhonourable option value where a refusal is due}) plus model-based testing: proptest generates a configuration and a history of <=11 requests; served files are replaced on disk between requests (an acknowledged tsize must be the current size); a reference decision table and model filesystem predict each reply class and the exact tree; the real send/receive trees are compared byte-for-byte with the model after every step.",
+   "Exhaustive decision table (32 configurations x RRQ/WRQ x 14 targets (incl. backslash spellings) x {plain, with an unhonourable option value where a refusal is due}) plus model-based testing: proptest generates a configuration and a history of <=11 requests; served files are replaced on disk between requests (an acknowledged tsize must be the current size); a reference decision table and model filesystem predict each reply class and the exact tree; the real send/receive trees are compared byte-for-byte with the model after every step.",
    "Targets live in existing directories; aborted uploads follow C13's clean/keep rule in the model.",
    "model-based stateful proptest (decision table + model filesystem) against the real binary", "4/C06"),
  "C07": ("sim", "fault_enumeration",
